@@ -11,6 +11,7 @@ pub mod c08;
 pub mod c09;
 pub mod c11;
 pub mod c12;
+pub mod c13;
 pub mod c14;
 pub mod c15;
 pub mod c16;
@@ -52,6 +53,7 @@ pub fn get(id: &str) -> Option<Prop> {
         "C09" => Some(c09::prop()),
         "C11" => Some(c11::prop()),
         "C12" => Some(c12::prop()),
+        "C13" => Some(c13::prop()),
         "C14" => Some(c14::prop()),
         "C15" => Some(c15::prop()),
         "C16" => Some(c16::prop()),
